@@ -545,7 +545,11 @@ def run_smooth(cfg):
                     # property's business - the objective along the iterates still is
                     skipped += 1
                 else:
-                    _first(first, 'raises:' + type(exc).__name__, msg)
+                    # an exception once the gradient has collapsed (floating-point resolution of
+                    # the objective reached) is kept apart from one far away from a minimiser
+                    g0 = float(np.linalg.norm(grad(x0)))
+                    where = '_at_convergence' if gn <= 1e-6 * (1.0 + g0) else ''
+                    _first(first, 'raises:' + type(exc).__name__ + where, msg)
             evals += 1
             bad = [k for k in range(len(vals) - 1)
                    if not vals[k + 1] <= vals[k] + 1e-12 * (1.0 + abs(vals[k]))]
@@ -622,7 +626,7 @@ def run_power(cfg):
         w = S.weights(sp)
         A = Sm / w[:, None]
         op = WMat(A, sp, sp, selfadj=True)
-        maxiters = [1, 2, 3, 4, 5, 8, 13, 20]
+        maxiters = [1, 2, 3, 4, 5, 8, 13, 20] if cfg.get('deep') else [1, 2, 5, 20]
     else:
         if cfg['pool'] == 'spd':
             n = shape[0]
@@ -630,7 +634,7 @@ def run_power(cfg):
         else:
             A = _scaled_rect(shape, cfg['mat'], cfg['ill'])
         op = _matop(A, wk, 'ref' if wk == 'wa' else cfg.get('impl', 'odl'))
-        maxiters = [2, 4, 6, 8, 10, 14, 20]
+        maxiters = [2, 4, 6, 8, 10, 14, 20] if cfg.get('deep') else [2, 4, 10, 20]
     site = 'power_method_opnorm[%s,%s]' % (cfg['arm'], _WN[wk])
     if cfg['arm'] != 'selfadjoint' and adjoint_defect(op) > 1e-12:
         return {'evals': 0, 'skipped': 1, 'trivial': True, 'sig': 'adjoint-inexact'}
@@ -641,9 +645,23 @@ def run_power(cfg):
              [np.array(t) for t in itertools.product([-1.0, 0.5, 2.0], repeat=n)]
     first, evals, sigs, skipped = {}, 0, set(), 0
     from odl.operator.oputils import power_method_opnorm
+    # default start: noise from numpy.random, stream owned by the configuration
+    for mi in (4, 20):
+        _seed(cfg)
+        try:
+            est = power_method_opnorm(op, maxiter=mi)
+            evals += 1
+            if not est <= true * (1 + 1e-12):
+                _first(first, 'estimate_exceeds_norm',
+                       'A=%s wx=%s wy=%s default (random, seeded) start maxiter=%d: estimate %r > '
+                       'true norm %r' % (A.tolist(), wx.tolist(), wy.tolist(), mi, est, true))
+        except Exception as e:
+            _first(first, 'raises:' + type(e).__name__, 'A=%s default start: %r' % (A.tolist(), e))
     for xs in starts:
         for mi in maxiters:
             for rtol in (1e-5, 0.0):
+                if rtol == 0.0 and not cfg.get('deep') and mi != 20:
+                    continue
                 x_in = op.domain.element(xs.copy())
                 try:
                     est = power_method_opnorm(op, xstart=x_in, maxiter=mi, rtol=rtol,
@@ -685,7 +703,7 @@ RHO = [1.0, 0.5, 2.0]                   # prior / (L x*) for Kullback-Leibler da
 
 MATS = {
     'D': {3: [[-1.0, 1.0, 0.0], [0.0, -1.0, 1.0]], 2: [[-1.0, 1.0]]},
-    'M': {3: [[2.0, 1.0, 0.0], [0.0, 1.0, -1.0], [1.0, 0.0, 1.0]], 2: [[1.0, 1.0], [1.0, -1.0]]},
+    'M': {3: [[2.0, 1.0, 0.0], [0.0, 2.0, -1.0], [1.0, 0.0, 2.0]], 2: [[2.0, 1.0], [0.0, 1.0]]},
     'P': {3: [[1.0, 0.5, 0.0], [0.0, 1.0, 0.5], [0.5, 0.0, 1.0]], 2: [[1.0, 0.5], [0.5, 1.0]]},
     'W': {3: [[1.0, 2.0, 0.0], [0.0, 1.0, -1.0]], 2: [[1.0, 2.0]]},
     'Q': {3: [[1.0, 1.0, 0.0], [1.0, -1.0, 0.0], [0.0, 0.0, 1.0]], 2: [[1.0, 1.0], [1.0, -1.0]]},
@@ -934,7 +952,7 @@ def build_problem(rec):
     strict_g = any(fam['blocks'][i][0] in ('l2sq', 'kl') and
                    np.linalg.matrix_rank(Lmats[i]) == n for i in range(len(Ls)))
     P.unique = bool(f_ref.strong > 0 or (h_ref is not None and h_ref.strong > 0) or strict_g
-                    or fam.get('unique'))
+                    or fam.get('unique')) and not fam.get('nonunique')
     P.deg = deg
     return P
 
@@ -1001,7 +1019,12 @@ FAMS = {
     'feas': dict(X=['rn2', 'rn3'], f=('zero',), absorb='none',
                  blocks=[('indzero', None, 'Q', 'fit')], xv=XV, solvers=PD4, unique=True,
                  zero_dual_only=True),
-    # l1 + linear constraint (M invertible, so the solution is the feasible point)
+    # under-determined feasibility (2 x 3): a whole line of solutions, only the sub-gradient
+    # inclusion of the limit is judged
+    'feas_wide': dict(X=['rn3'], f=('zero',), absorb='none',
+                      blocks=[('indzero', None, 'W', 'fit')], xv=XV, solvers=PD4,
+                      nonunique=True, zero_dual_only=True),
+    # l1 + linear constraint (Q invertible, so the solution is the feasible point)
     'l1eq': dict(X=['rn2', 'rn3'], f=('l1', 1.0), absorb='f_lin',
                  blocks=[('indzero', None, 'Q', 'fit')], xv=XV, solvers=PD4, unique=True),
 }
@@ -1010,6 +1033,10 @@ FAMS = {
 # ---- running the solvers ----------------------------------------------------------------------
 
 class _Stop(Exception):
+    pass
+
+
+class _Diverged(Exception):
     pass
 
 
@@ -1035,6 +1062,8 @@ class Watch(object):
         self.res = self.P.ref.residual(z, self.P.ys)
 
     def ok(self, f=1.0):
+        if not self.P.unique:           # solution set not a singleton: sub-gradient inclusion only
+            return self.res <= f * 1e-6 * self.scale
         return (self.dist <= f * 1e-5 * (1.0 + self.nx) and self.res <= f * 1e-6 * self.scale)
 
     def __call__(self, x):
@@ -1048,7 +1077,9 @@ class Watch(object):
                     self.nonmono += 1
                 self.prev = v
         self.dist = R.wnorm(z - self.P.xs, self.P.wx)
-        if self.dist <= 1e-5 * (1.0 + self.nx):
+        if not np.isfinite(self.dist):
+            raise _Diverged()           # NaN / inf iterate: no point in running on
+        if self.dist <= 1e-5 * (1.0 + self.nx) or not self.P.unique:
             self.res = self.P.ref.residual(z, self.P.ys)
             if self.ok(1e-3):
                 raise _Stop()
@@ -1065,7 +1096,7 @@ def _grids(solver, P, tier):
     nrm = P.ref.Lnorm
     out = []
     if solver == PDHG:
-        for p, rho in [(0.9, 1.0), (0.5, 4.0), (0.99, 0.25)][:3 if thorough else 2]:
+        for p, rho in [(0.9, 1.0), (0.5, 4.0), (0.99, 0.25)][:3 if thorough else 1]:
             out.append({'tau': np.sqrt(p * rho) / nrm, 'sigma': np.sqrt(p / rho) / nrm,
                         'tag': 'tau*sigma*|L|^2=%s,tau/sigma=%s' % (p, rho)})
         out.append({'tau': None, 'sigma': None, 'tag': 'default'})
@@ -1076,7 +1107,7 @@ def _grids(solver, P, tier):
         m = len(P.norms)
         s1 = sum(P.norms)
         for p, rho, lam in [(2.0, 1.0, 1.0), (3.6, 0.5, 1.5), (1.0, 2.0, 0.5)][:3 if thorough
-                                                                              else 2]:
+                                                                              else 1]:
             tau = rho * m / s1
             sigma = [p / (m * tau * nr ** 2) for nr in P.norms]
             out.append({'tau': tau, 'sigma': sigma, 'lam': lam,
@@ -1084,6 +1115,8 @@ def _grids(solver, P, tier):
         out.append({'tau': None, 'sigma': None, 'lam': 1.0, 'tag': 'default'})
         if thorough:
             out.append({'tau': 1.0 / s1, 'sigma': None, 'lam': 1.0, 'tag': 'tau-only'})
+            out.append({'tau': None, 'sigma': [1.0 / nr for nr in P.norms], 'lam': 1.0,
+                        'tag': 'sigma-only'})
     elif solver == FBPD:
         beta = P.lip_h
         m = len(P.norms)
@@ -1224,6 +1257,7 @@ def run_ns(cfg):
     first, evals, sigs, skipped = {}, 0, set(), 0
     diag_nonmono = 0
     diag_runs = 0
+    nfp = 0
     iters = []
     live = not cfg.get('deg')
     for st in _grids(solver, P, tier):
@@ -1266,6 +1300,7 @@ def run_ns(cfg):
                                 '%s: dual variable moved from y*=%s to %s' % (
                                     info, P.ys.tolist(), S.to_flat(inject[0]).tolist())))
                 sigs.add('%s:fp' % solver)
+                nfp += 1
             # ---- result of a short run is the last iterate handed to the callback
             x0 = _x0(P, 'pattern', fam)
             x = S.from_flat(P.X, x0.copy())
@@ -1273,7 +1308,7 @@ def run_ns(cfg):
             _seed(cfg)
             _call_ns(solver, P, st, x, 5, rec)
             evals += 1
-            if len(rec.it) != 5 or not np.array_equal(S.to_flat(x), rec.it[-1]):
+            if len(rec.it) != 5 or not np.array_equal(S.to_flat(x), rec.it[-1], equal_nan=True):
                 _first(first, ('last', site), (
                     'result_is_not_last_iterate',
                     '%s x0=%s niter=5: %d callbacks, x after the call %s, last callback iterate '
@@ -1303,13 +1338,20 @@ def run_ns(cfg):
                     _call_ns(solver, P, st, x, K, w, inject)
                 except _Stop:
                     stopped = True
+                except _Diverged:
+                    _first(first, ('live', site), (
+                        'no_convergence_within_horizon',
+                        '%s x0=%s: iterate %d is not finite: %s (x*=%s)' % (
+                            info, x0.tolist(), w.k, w.last.tolist(), P.xs.tolist())))
+                    evals += 1
+                    continue
                 evals += 1
                 if diag is not None:
                     diag_runs += 1
                     diag_nonmono += w.nonmono
                 if not stopped:
                     z = S.to_flat(x)
-                    if w.last is None or not np.array_equal(z, w.last):
+                    if w.last is None or not np.array_equal(z, w.last, equal_nan=True):
                         _first(first, ('last', site), (
                             'result_is_not_last_iterate',
                             '%s x0=%s: x after the call %s, last callback iterate %s' % (
@@ -1319,10 +1361,11 @@ def run_ns(cfg):
                     if not w.ok():
                         _first(first, ('live', site), (
                             'no_convergence_within_horizon',
-                            '%s x0=%s: after K=%d iterations x=%s, x*=%s, |x-x*|=%.3e '
+                            '%s x0=%s: after K=%d iterations x=%s, x*=%s%s, |x-x*|=%.3e '
                             '(tolerance %.1e), KKT residual %.3e (tolerance %.1e)' % (
-                                info, x0.tolist(), K, z.tolist(), P.xs.tolist(), w.dist,
-                                1e-5 * (1 + w.nx), w.res, 1e-6 * w.scale)))
+                                info, x0.tolist(), K, z.tolist(), P.xs.tolist(),
+                                '' if P.unique else ' (one of many solutions, not judged)',
+                                w.dist, 1e-5 * (1 + w.nx), w.res, 1e-6 * w.scale)))
                 iters.append(w.k)
                 sigs.add('%s:%s:%s' % (solver, 'conv' if (stopped or w.ok()) else 'noconv',
                                        int(np.log2(max(w.k, 1)))))
@@ -1333,7 +1376,8 @@ def run_ns(cfg):
     viol = [{'site': k[1], 'symptom': v[0], 'detail': v[1]} for k, v in first.items()]
     return {'evals': evals, 'viol': viol, 'sig': sorted(sigs), 'skipped': skipped,
             'trivial': evals == 0,
-            'diag': [diag_runs, diag_nonmono], 'iters': [max(iters)] if iters else []}
+            'diag': [diag_runs, diag_nonmono], 'iters': [max(iters)] if iters else [],
+            'nfp': nfp}
 
 
 # ----------------------------------------------------------------------------------------------
@@ -1365,7 +1409,7 @@ def _pool(shape, alph):
     return _POOLS[key]
 
 
-K_LIVE = 6000
+K_LIVE = 4000
 COMBOS = [(0, 'plain'), (1, 'plain'), (0, 'w2'), (0, 'wa'), (1, 'wa'), (1, 'w2')]
 
 
@@ -1434,16 +1478,16 @@ def configs(tier):
                 for ill in (0, 1):
                     for arm in ('selfadjoint', 'normal'):
                         cfgs.append({'kind': 'power', 'pool': 'spd', 'shape': [n, n], 'mat': t,
-                                     'ill': ill, 'w': wk, 'arm': arm})
+                                     'ill': ill, 'w': wk, 'arm': arm, 'deep': int(thorough)})
         for t in sym2:                  # symmetric, possibly indefinite / singular
             cfgs.append({'kind': 'power', 'pool': 'sym', 'shape': [2, 2], 'mat': t, 'ill': 0,
-                         'w': wk, 'arm': 'selfadjoint'})
+                         'w': wk, 'arm': 'selfadjoint', 'deep': int(thorough)})
         for shape in ([2, 2], [3, 2], [2, 3]):
             pool = _pool(shape, MV) if thorough else _pool(shape, small)
             for t in pool:
                 for ill in (0, 1):
                     cfgs.append({'kind': 'power', 'pool': 'rect', 'shape': shape, 'mat': t,
-                                 'ill': ill, 'w': wk, 'arm': 'normal'})
+                                 'ill': ill, 'w': wk, 'arm': 'normal', 'deep': int(thorough)})
     # ---- (b) non-smooth solvers
     for fam, F in FAMS.items():
         for xi, X in enumerate(F['X']):
@@ -1459,7 +1503,7 @@ def configs(tier):
             elif thorough:
                 pats = [(0, 0), (1, 0), ('z', 0), (0, 1)]
             else:
-                pats = [(0, 0), ('z', 0), (0, 1)]
+                pats = [(0, 0), ('z', 0)]
             for pat, deg in pats:
                 for xs in pts:
                     for sv in F['solvers']:
@@ -1498,6 +1542,7 @@ def summarize(results):
     diag_runs = diag_non = 0
     worst = {}
     inadm = 0
+    fp = {}
     for cfg, res in results:
         if cfg.get('kind') != 'ns':
             continue
@@ -1508,9 +1553,11 @@ def summarize(results):
             key = '%s/%s' % (cfg['solver'], cfg['fam'])
             worst[key] = max(worst.get(key, 0), k)
         inadm += sum(1 for s in res['sig'] if 'default-inadmissible' in s)
+        fp[cfg['solver']] = fp.get(cfg['solver'], 0) + (res.get('nfp') or 0)
     return {'diagnostic_lyapunov_runs': diag_runs,
             'diagnostic_nonmonotone': diag_non,
             'default_step_rule_inadmissible_states': inadm,
+            'fixed_point_step_settings_checked': dict(sorted(fp.items())),
             'max_iterations_to_converge': dict(sorted(worst.items())),
             'liveness_horizon': K_LIVE}
 
